@@ -127,6 +127,8 @@ void ds_sub_wq(void) {
       quota = 1 + (long)(vp_rand(&rng) % 3);
       vp_count("wq_micro_rounds", 1);
     }
+    // the queue object is re-used round after round: every second round it starts from garbage, as an object in non-zero memory would
+    if (cur_round & 1) memset(&wq, 0xA5, sizeof(wq));
     work_queue_init(&wq);
     int i;
     for (i = 0; i < T; ++i) vp_log_reset(&ds_w[i].log);
